@@ -155,6 +155,10 @@ static __m512d twenty;
 static __m512d _M;
 static __m512i so2; // cross lane permutations
 static __m512i so1; 
+// The constants above depend on the simulation (masses, N_systems) but live in file scope.
+// Remember which simulation they were calculated for, so that a second WHFast512 simulation
+// in the same process does not silently use the constants of the first one.
+static const struct reb_simulation* constants_owner = NULL;
 
 // Debug function to print vectors
 void static inline printavx512(__m512d a) {
@@ -909,6 +913,7 @@ void static recalculate_constants(struct reb_simulation* r){
     gr_prefac = _mm512_loadu_pd(&_gr_prefac);
     gr_prefac2 = _mm512_loadu_pd(&_gr_prefac2);
     ri_whfast512->recalculate_constants = 0;
+    constants_owner = r;
 
 }
 
@@ -985,7 +990,7 @@ void reb_integrator_whfast512_part1(struct reb_simulation* const r){
         r->gravity = REB_GRAVITY_NONE; // WHFast512 uses its own gravity routine.
     }
 
-    if (ri_whfast512->recalculate_constants){
+    if (ri_whfast512->recalculate_constants || constants_owner != r){
         recalculate_constants(r);
     } 
 
@@ -1044,7 +1049,7 @@ void reb_integrator_whfast512_synchronize(struct reb_simulation* const r){
         const unsigned int N_systems = ri_whfast512->N_systems;
         struct reb_particle_avx512* sync_pj = NULL;
         struct reb_particle sync_pj0[4];
-        if (ri_whfast512->recalculate_constants){ 
+        if (ri_whfast512->recalculate_constants || constants_owner != r){
             // Needed if no step has ever been done before (like SA)
             recalculate_constants(r);
         } 
